@@ -256,7 +256,10 @@ class PipelineSim(WorldBase):
                     rows.append(row)
                     if with_write and g.random() < 0.6:
                         if g.random() < 0.25:
-                            wpos = S + staging
+                            # staging area: beyond the shape, starting on a line boundary for every line
+                            # size used (the models assume an element lives on exactly one line and
+                            # lines do not mix fiber and staging positions)
+                            wpos = ((S + 11) // 12) * 12 + staging
                             staging += 1
                         else:
                             wpos = pos
